@@ -47,7 +47,7 @@ Advance(guardFails) ==
 NoExpect == [files |-> FALSE, mayChange |-> <<>>, mustChange |-> <<>>,
              sites |-> FALSE, siteMay |-> <<>>, siteMust |-> <<>>, exit |-> -1,
              sel |-> FALSE, queues |-> <<>>, faults |-> FALSE, mustFail |-> <<>>,
-             deps |-> FALSE, cand |-> <<>>, mustOne |-> FALSE]
+             deps |-> FALSE, cand |-> <<>>, mustOne |-> FALSE, frozen |-> FALSE]
 
 TraceInit ==
   /\ tid \in 1..Len(Traces) /\ l = 1 /\ verdict = {} /\ expect = NoExpect /\ changed = {} /\ sites = <<>> /\ env = {}
@@ -116,6 +116,11 @@ TrFileEnd ==
                => e.o = "failed", "FileEnd:unprocessable-file-not-reported-failed">>,
           <<e.o = "failed" => e.unfixedAll, "FileEnd:findings-of-failed-file-not-reported-unfixed">>,
           <<e.findingsOk, "FileEnd:change-entry-carries-wrong-findings">>,
+          <<e.parsesOk, "FileEnd:rewritten-file-no-longer-parses">>,
+          <<e.namesOk, "FileEnd:rewrite-introduced-an-unresolved-name">>,
+          <<e.bagOk, "FileEnd:rewrite-changed-more-than-the-documented-edit">>,
+          <<expect.frozen => e.o # "changed", "FileEnd:second-run-reports-a-change">>,
+          <<expect.frozen => e.post = disk[e.f], "FileEnd:second-run-modified-a-file">>,
           <<e.unfixedOk, "FileEnd:unfixed-finding-that-was-not-reported">>,
           <<(expect.files /\ e.o = "changed") => e.f \in ToSet(expect.mayChange), "FileEnd:file-not-selected-was-changed">>,
           <<(expect.sites /\ e.o = "changed") => ToSet(e.sites) \subseteq SiteMayOf(e.f), "FileEnd:site-not-permitted-was-rewritten">>,
